@@ -242,6 +242,40 @@ def run(ctx):
         ctx.check(r == (1, 1), R2, nb, 'new:notifications', 'Track::new emits exactly one notification',
                   'Track::new emits %s notifications' % (r,))
     store_level(ctx, R4)
+    # "a requested class present in either track": presence = the class key is in the track's observation map. The source
+    # is consulted by a plain map lookup (directly or through an accessor that IS that lookup); an accessor that hides
+    # empty / filtered classes makes a class of the source count as absent: no history, no class in the destination
+    ctx.rule('R11.7', 'Track::merge decides presence of a class in the source by a plain lookup in its observation map')
+    mb = ctx.anchor('R11.7', TRACK + '::merge')
+    n7 = 0
+    if mb is not None:
+        from lib import expand_calls
+        ebm = ExprBuilder(mb)
+        for c in mb.find_calls():
+            ty = mb.locals[c.dest['l']] if c.dest and not c.dest['p'] else ''
+            if 'Option<&' not in ty or 'Observation' not in ty or not c.args:
+                continue
+            a0 = ebm.arg(c, 0)
+            if not any(p_.root == ('param', 2) for p_ in a0.places()):
+                continue
+            e = expand_calls(ctx.F, ebm._call(c, (), 0), depth=2)
+            x = e
+            while x.kind == 'call' and x.name.rsplit('::', 1)[-1] in ('copied', 'cloned', 'as_ref', 'as_deref', 'map') and x.args \
+                    and x.name.rsplit('::', 1)[-1] != 'map':
+                x = x.args[0]
+            plain = x.kind == 'call' and x.name.rsplit('::', 1)[-1] == 'get' and 'HashMap' in x.name and \
+                x.args[0].has_field('observations') and any(p_.root == ('param', 2) for p_ in x.args[0].places())
+            n7 += 1
+            ctx.check(plain, 'R11.7', mb, 'source-class-present=key-in-map', repr(e)[:100],
+                      'Track::merge reads the observations of a source class as %r: not a plain lookup in the source\'s '
+                      'observation map - a class the source holds can count as absent (no history extension, class not '
+                      'merged)' % e, c.ln)
+    ctx.floor('R11.7', n7, 1)
+    from props import C09
+    C09.r10(ctx, 'R11.8')
+    import misclib
+    ctx.rule('R11.6', 'who-may-notify: change notifications come from Track::new / add_observation / merge only')
+    ctx.floor('R11.6', misclib.rule_who_may_notify(ctx, 'R11.6'), 4)
 
 
 def restore_rules(ctx, R):
